@@ -9,6 +9,7 @@
 -/
 import Sq.Proto
 import SqLemmas.ParseLayout
+import SqLemmas.LexBlank
 namespace SqProps.C15
 open Sq
 
@@ -137,4 +138,26 @@ example : Proto.sameTree "f(a,\n  b\n)" "f(a, b)" = true := by decide +kernel
 example : Proto.sameTree "[1,\r\n 2]" "[1, 2]" = true := by decide +kernel
 example : Proto.sameTree "a  +\tb" "a + b" = true := by decide +kernel
 
-end SqProps.C15
+/-! ### character level (suffix half): a blank where the lexer begins a step -/
+
+/-- shifting offsets changes nothing the parser or an error message reads: kind, value and line of a token stay -/
+theorem shift_keeps_kind_value_line (d : Nat) (t : Token) :
+    (t.shift d).ty = t.ty ∧ (t.shift d).val = t.val ∧ (t.shift d).line = t.line := ⟨rfl, rfl, rfl⟩
+
+/-- **an extra space or tab where the lexer begins a step is insignificant**: in every lexer state (any bracket depth,
+    any line) and before any remaining text, the blank is skipped and the rest is lexed to the same tokens — kinds,
+    values, line numbers — the same lexical error if any, every offset one further -/
+theorem blank_where_a_step_begins (fuel : Nat) (st : LexSt) (b : Char) (hb : isBlank b) (s : List Char) :
+    lexAllAux (fuel + 1) st (b :: s) [] = shiftOut 1 (lexAllAux fuel st s []) := blank_before_rest fuel st b hb s
+
+/-- leading blanks of a text -/
+theorem leading_blank_of_text (b : Char) (hb : isBlank b) (s : List Char) :
+    lexFrom LexSt.init (b :: s) = shiftOut 1 (lexFrom LexSt.init s) := leading_blank b hb s
+
+/-- the lexer reads its offset only to stamp tokens: one step commutes with shifting the offset -/
+theorem lexer_is_offset_invariant (d : Nat) (st : LexSt) (s : List Char) :
+    lexStep (st.shift d) s = (lexStep st s).shift d := lexStep_shift d st s
+
+example : (lexFrom LexSt.init " \t1 +  2".toList).toOption.map (fun p => p.1.map (fun t => (t.ty, t.val))) =
+    (lexFrom LexSt.init "1 +  2".toList).toOption.map (fun p => p.1.map (fun t => (t.ty, t.val))) := by decide +kernel
+
